@@ -627,3 +627,122 @@ Proof.
     + cbn. repeat split; auto. intros p0 E. inversion E. apply perm_bits_plain.
     + rewrite mhandles_upd. cbn [mhandles]. rewrite Hh2. apply handles_alloc; [exact Hs|]. unfold hrel2. cbn. unfold item. rewrite (proj1 H). repeat split.
 Qed.
+
+(* ---------- association lists whose keys are renamed ---------- *)
+Section MapKeys.
+Context {A : Type} (phi : str -> str).
+Definition mapk (l : list (str * A)) : list (str * A) := map (fun kv => (phi (fst kv), snd kv)) l.
+
+Lemma aget_mapk (l : list (str * A)) :
+  (forall k1 k2, In k1 (map fst l) -> In k2 (map fst l) -> phi k1 = phi k2 -> k1 = k2) ->
+  forall k, In k (map fst l) -> alist_get (phi k) (mapk l) = alist_get k l.
+Proof.
+  induction l as [|[k0 v0] l IH]; intros Hinj k Hin; [destruct Hin|]. cbn [mapk map fst snd alist_get].
+  destruct (str_eq_dec k k0) as [->|Hne].
+  - now rewrite !beqb_refl.
+  - assert (E1 : beqb k k0 = false) by now apply beqb_neq.
+    assert (E2 : beqb (phi k) (phi k0) = false).
+    { apply beqb_neq. intros E. apply Hne. apply Hinj; auto. now left. }
+    rewrite E1, E2. apply IH.
+    + intros k1 k2 H1 H2. apply Hinj; now right.
+    + destruct Hin as [Hin|Hin]; [cbn in Hin; congruence | exact Hin].
+Qed.
+
+Lemma aget_mapk_none (l : list (str * A)) k' :
+  (forall k0, In k0 (map fst l) -> phi k0 <> k') -> alist_get k' (mapk l) = None.
+Proof.
+  induction l as [|[k0 v0] l IH]; intros Hn; [reflexivity|]. cbn [mapk map fst snd alist_get].
+  assert (E : beqb k' (phi k0) = false) by (apply beqb_neq; intros E; apply (Hn k0); [now left | congruence]).
+  rewrite E. apply IH. intros k1 H1. apply Hn. now right.
+Qed.
+
+Lemma nodup_mapk (l : list (str * A)) :
+  (forall k1 k2, In k1 (map fst l) -> In k2 (map fst l) -> phi k1 = phi k2 -> k1 = k2) ->
+  NoDup (map fst l) -> NoDup (map fst (mapk l)).
+Proof.
+  induction l as [|[k0 v0] l IH]; intros Hinj Hnd; [constructor|]. cbn [mapk map fst snd].
+  inversion Hnd as [|? ? Hni Hnd']; subst. constructor.
+  - intros Hin. apply in_map_iff in Hin as ([k1 v1] & E & Hin). cbn in E.
+    apply in_map_iff in Hin as ([k2 v2] & E2 & Hin2). cbn in E2. inversion E2; subst k1 v1.
+    assert (k2 = k0). { apply Hinj; [right; apply in_map_iff; now exists (k2, v2) | now left | congruence]. }
+    subst k2. apply Hni. apply in_map_iff. now exists (k0, v2).
+  - apply IH; [|exact Hnd']. intros k1 k2 H1 H2. apply Hinj; now right.
+Qed.
+End MapKeys.
+
+Lemma existsb_keys {A B} (g : str -> bool) (l1 : list (str * A)) (l2 : list (str * B)) :
+  (forall k, alist_get k l1 = None <-> alist_get k l2 = None) ->
+  existsb (fun kv => g (fst kv)) l1 = existsb (fun kv => g (fst kv)) l2.
+Proof.
+  intros Hk.
+  assert (Hx : forall {C D} (a : list (str * C)) (b : list (str * D)),
+     (forall k, alist_get k a = None <-> alist_get k b = None) ->
+     existsb (fun kv => g (fst kv)) a = true -> existsb (fun kv => g (fst kv)) b = true).
+  { intros C D a b Hab Ha. apply existsb_exists in Ha as ([k v] & Hin & Hg). cbn in Hg.
+    assert (Hka : alist_get k a <> None). { intros E. apply aget_none_keys in E. apply E. apply in_map_iff. now exists (k, v). }
+    destruct (alist_get k b) as [v'|] eqn:Eb; [|exfalso; apply Hka; now apply Hab].
+    apply existsb_exists. exists (k, v'). split; [now apply aget_in | exact Hg]. }
+  destruct (existsb (fun kv => g (fst kv)) l1) eqn:E1.
+  - symmetry. now apply (Hx _ _ l1 l2).
+  - destruct (existsb (fun kv => g (fst kv)) l2) eqn:E2; [|reflexivity].
+    rewrite (Hx _ _ l2 l1) in E1; [discriminate | intros k; symmetry; apply Hk | exact E2].
+Qed.
+
+(* ---------- Remove / RemoveAll ---------- *)
+Lemma sim_remove s t p : Rsim s t -> wf_op s (Remove p) = true -> sim_raw s t (Remove p).
+Proof.
+  intros R Hwf. pose proof R as [W T N H Hs]. unfold sim_raw.
+  pose proof (WF_remove s p W Hwf) as W'. cbn [m_step_raw p_step] in *.
+  cbn [wf_op] in Hwf. apply andb_true_iff in Hwf as [Hn Hwf]. apply andb_true_iff in Hn as [Hn Hroot].
+  set (k := normalize_path p) in *. apply negb_true_iff in Hroot.
+  unfold m_remove in *. fold k in W' |- *.
+  destruct (lookup s k) as [f|] eqn:Hl.
+  - destruct (rel_node s t k f R Hl) as (n & x & Hgn & Hp & _ & Hx & Hi). rewrite Hx.
+    assert (Hroot' : k <> s_slash) by now apply beqb_neq.
+    destruct (GWF_unregister kempty kempty kempty s k f W Hl (WF_fresh s k f W Hl) Hroot') as (q & qn & _ & _ & _ & Hun & _); [intros [] | intros [] |].
+    rewrite Hun in *. cbn [fst snd mproj] in *.
+    assert (Rdel : Rsim (set_data (upd_node s q (del_kid k)) (alist_del k (mdata (upd_node s q (del_kid k)))))
+                        (set_tree t (alist_del k (ptree t)))).
+    { split.
+      - exact W'.
+      - intros k'. unfold lookup, plookup, set_data, set_tree. cbn [mdata ptree]. rewrite mdata_upd, !aget_del.
+        destruct (beqb k k'); [reflexivity | apply T].
+      - unfold set_tree. cbn [ptree]. now apply nodup_del.
+      - eapply heap_rel_mheap; [reflexivity | reflexivity|]. apply heap_rel_upd; [exact H|]. intros n0 x0 _ _. apply irel_core. reflexivity.
+      - cbn [mhandles set_data]. now rewrite mhandles_upd. }
+    destruct x as [pm|d pm]; cbn in Hi.
+    + destruct Hi as [Hd _]. unfold kind_at in Hwf. rewrite Hl, Hgn, Hd in Hwf. apply negb_true_iff in Hwf.
+      assert (Hch : phas_children t k = false).
+      { unfold phas_children. rewrite <- Hwf. unfold has_kids. symmetry. apply existsb_keys. intros k'. fold (lookup s k') (plookup t k'). now rewrite T. }
+      rewrite Hch, Hroot. cbn [orb fst snd]. split; [exact Rdel | reflexivity].
+    + split; [exact Rdel | reflexivity].
+  - destruct (rel_none s t k R Hl) as [_ Hx]. rewrite Hx. split; [exact R | reflexivity].
+Qed.
+
+Lemma sim_removeall s t p : Rsim s t -> wf_op s (RemoveAll p) = true -> sim_raw s t (RemoveAll p).
+Proof.
+  intros R Hwf. pose proof R as [W T N H Hs]. unfold sim_raw.
+  pose proof (WF_removeall s p W Hwf) as W'. cbn [m_step_raw p_step] in *.
+  cbn [wf_op] in Hwf. apply andb_true_iff in Hwf as [Hn Hwf]. apply andb_true_iff in Hn as [Hn Hroot].
+  set (k := normalize_path p) in *. assert (Hc : canon k) by now apply canon_normalize. apply negb_true_iff, beqb_neq in Hroot.
+  unfold m_removeall in *. fold k in W' |- *.
+  assert (Hp : forall k', plookup (set_tree t (filter (fun kv => negb (patbelow k (fst kv))) (ptree t))) k' =
+                          if under k k' then None else plookup t k').
+  { intros k'. unfold plookup, set_tree. cbn [ptree]. rewrite (aget_filter (fun x => negb (patbelow k x)) k' (ptree t)).
+    change (patbelow k k') with (under k k'). now destruct (under k k'). }
+  destruct (lookup s k) as [f|] eqn:Hl.
+  - destruct (GWF_unregister kempty kempty kempty s k f W Hl (WF_fresh s k f W Hl) Hroot) as (q & qn & _ & _ & _ & Hun & _); [intros [] | intros [] |].
+    rewrite Hun in *. cbn [fst snd mproj] in *. split; [|reflexivity]. split.
+    + exact W'.
+    + intros k'. fold (prune (upd_node s q (del_kid k)) k). rewrite lookup_prune, lookup_upd, Hp. destruct (under k k'); [reflexivity | apply T].
+    + unfold set_tree. cbn [ptree]. now apply nodup_filter.
+    + eapply heap_rel_mheap; [reflexivity | reflexivity|]. apply heap_rel_upd; [exact H|]. intros n0 x0 _ _. apply irel_core. reflexivity.
+    + cbn [mhandles set_data]. now rewrite mhandles_upd.
+  - assert (Hun : unregister s k = Some (s, false)) by (unfold unregister; now rewrite (lockfree_open_canon s k Hc), Hl).
+    rewrite Hun in *. cbn [fst snd mproj] in *. split; [|reflexivity]. split.
+    + exact W'.
+    + intros k'. fold (prune s k). rewrite lookup_prune, Hp. destruct (under k k'); [reflexivity | apply T].
+    + unfold set_tree. cbn [ptree]. now apply nodup_filter.
+    + exact H.
+    + exact Hs.
+Qed.
